@@ -61,6 +61,9 @@ func TestCheck(t *testing.T) {
 	if os.Getenv("VERIF_WORKER") == "1" {
 		mk := histChecks[id]
 		if mk == nil {
+			mk = histExtra[id]
+		}
+		if mk == nil {
 			t.Fatalf("no history check %s", id)
 		}
 		synctest.Test(t, func(t *testing.T) {
@@ -212,12 +215,16 @@ func (t *tailWriter) Write(p []byte) (int, error) {
 	return len(p), nil
 }
 
-func runHist(t *testing.T, id, tier string, scens []*hist.Scenario) int {
-	t0 := time.Now()
+// histExtra: history scenarios that a check of another engine runs in
+// addition (so that replay finds them)
+var histExtra = map[string]func(tier string) []*hist.Scenario{}
+
+// histPart runs history scenarios and returns their coverage and violations.
+func histPart(t *testing.T, id, tier string, scens []*hist.Scenario, t0 time.Time) (map[string]any, []report.Viol, int, int) {
 	exe, err := os.Executable()
 	if err != nil {
 		fmt.Fprintln(os.Stderr, err)
-		return 2
+		return nil, nil, 0, 2
 	}
 	deadline := t0.Add(budget(tier))
 	var all []report.Viol
@@ -246,7 +253,7 @@ func runHist(t *testing.T, id, tier string, scens []*hist.Scenario) int {
 		}
 		if err != nil {
 			fmt.Fprintf(os.Stderr, "check %s scenario %s: harness error: %v\n", id, sc.ID, err)
-			return 2
+			return nil, nil, 0, 2
 		}
 		fmt.Printf("%s: depth=%d states=%d transitions=%d drains=%d levels=%v nonEmptyPulls=%d exhaustive=%v wall=%.1fs hits=%v foreign=%v\n",
 			sc.ID, st.MaxDepth, st.States, st.Transitions, st.DrainRuns, st.Levels, st.NonEmptyPulls, st.Exhaustive, st.Wall, st.RuleHits, st.Foreign)
@@ -292,6 +299,15 @@ func runHist(t *testing.T, id, tier string, scens []*hist.Scenario) int {
 	cov["pulls_returning_messages"] = nonEmpty
 	cov["rule_hits"] = ruleHits
 	cov["foreign_rule_hits"] = foreign
+	return cov, all, trans, 0
+}
+
+func runHist(t *testing.T, id, tier string, scens []*hist.Scenario) int {
+	t0 := time.Now()
+	cov, all, trans, rc := histPart(t, id, tier, scens, t0)
+	if rc != 0 {
+		return rc
+	}
 	if extra := extraAfterHist[id]; extra != nil && os.Getenv("VERIF_NO_SCHED") == "" {
 		ecov, ev, err := extra(t, tier)
 		if err != nil {
@@ -327,6 +343,13 @@ func replay(t *testing.T, id, tier, file string) int {
 		return 2
 	}
 	mk := histChecks[id]
+	if x := histExtra[id]; x != nil && mk == nil {
+		for _, sc := range x(tier) {
+			if sc.ID == v.Check {
+				mk = x
+			}
+		}
+	}
 	if mk == nil {
 		if f := replayers[id]; f != nil {
 			return f(t, tier, v)
